@@ -2,6 +2,7 @@ package server
 
 import (
 	"errors"
+	"math"
 
 	"github.com/NethermindEth/juno/blockchain"
 	"github.com/NethermindEth/juno/core"
@@ -64,9 +65,19 @@ func (it *iterator) Next() bool {
 		return false
 	}
 
+	// the progression ends where the block numbers end: a step beyond either bound of uint64 must not
+	// wrap round into the chain (a "forward" request would be answered with lower blocks)
 	if it.forward {
+		if it.step > math.MaxUint64-it.blockNumber {
+			it.reachedEnd = true
+			return false
+		}
 		it.blockNumber += it.step
 	} else {
+		if it.step > it.blockNumber {
+			it.reachedEnd = true
+			return false
+		}
 		it.blockNumber -= it.step
 	}
 	// assumption that it.Valid checks for zero limit i.e. no overflow is possible here
